@@ -164,6 +164,7 @@ def check_scenario(spec: dict) -> dict:
         res["granularity"] = "context switches at synchronisation operations only" if disc else "every shared access is a scheduling point"
 
         def run(name, cons, want_model=False):
+            nonlocal enc, disc
             s = solver()
             s.add(enc.cons)
             s.add(disc)
@@ -176,8 +177,15 @@ def check_scenario(spec: dict) -> dict:
             res["queries"].append({"query": name, "result": r, "seconds": dt})
             return r, tr
 
-        # unwinding assertion
-        r, _ = run("unwinding: some thread can still move at depth K (must be unsat)", [enc.can_move(K)])
+        # unwinding assertion (deepen a few times if some schedule is longer than the probes suggested)
+        for attempt in range(4):
+            r, _ = run(f"unwinding: some thread can still move at depth K={K} (must be unsat)", [enc.can_move(K)])
+            if r != "sat" or attempt == 3:
+                break
+            K += 8
+            enc = ts.encode(K)
+            res["K"] = K
+            disc = replayable(enc) if spec.get("sync_granularity") else []
         if r != "unsat":
             res["inconclusive"].append(f"{spec['name']}: depth K={K} too small or solver gave {r}")
         # witness
@@ -291,7 +299,7 @@ def outcome_from(property_id, tier, results, functions, assumptions, bounds, out
         "scenarios": len(results),
         "queries": nq,
         "obligations": 3 * len(results),
-        "discharged": sum(1 for r in results for q in r["queries"][:3] if (q["result"] == "sat") == q["query"].startswith("witness")),
+        "discharged": sum(1 for r in results for q in r["queries"] if (q["query"].startswith("witness") and q["result"] == "sat") or (q["query"].startswith("violation:") and q["result"] == "unsat") or (q["query"].startswith("unwinding") and q["result"] == "unsat")),
         "solver_s": round(solver_s, 1),
         "per_scenario": [{k: r.get(k) for k in ("name", "granularity", "K", "cfa_locations", "cfa_edges", "raw_edges", "state_vars", "universe", "protected", "queries", "traces_validated", "sim_max_steps", "wall_s", "second_solver")} for r in results],
         "bounds": bounds,
